@@ -5,7 +5,7 @@
    harness/c17_pipeline.py. *)
 From Coq Require Import ZArith List Bool Ascii String.
 From Cnfgen Require Import Sem Comb Linear IR Text Dimacs DimacsFacts Cli GraphSpec Subst Fam_php Fam_ordering C03_Util.
-From Cnfgen Require Import PipelineGraph Pipeline PipelineFacts PipelineOptFacts.
+From Cnfgen Require Import Header PipelineGraph Pipeline PipelineFacts PipelineOptFacts PipelineHeader PipelineHeaderFacts.
 Import ListNotations.
 Open Scope Z_scope.
 
@@ -143,6 +143,69 @@ Theorem pipeline_quiet_spellings : forall rest,
   cnfgen_main ("-q"%string :: "-q"%string :: rest) = cnfgen_main ("-q"%string :: rest).
 Proof. exact quiet_spellings. Qed.
 Print Assumptions pipeline_quiet_spellings.
+
+(* ------------------------------------------------------------------ *)
+(* without -q: the comment header (C19 provenance, C06 round trip)     *)
+(* ------------------------------------------------------------------ *)
+(* [cnfgen_main_env version argv]: the program with or without -q; `version` is info['version'] of the installation,
+   the only part of the header that is not a function of argv.  Sub-commands with a graph argument are POutside
+   without -q (their description contains the name of the graph object). *)
+
+(* -q selects the header-less variant and changes nothing else; errors do not depend on it *)
+Theorem pipeline_env_extends_quiet : forall version argv t, cnfgen_main argv = POut t -> cnfgen_main_env version argv = POut t.
+Proof. exact env_extends_quiet. Qed.
+Print Assumptions pipeline_env_extends_quiet.
+
+Theorem pipeline_env_error_iff : forall version argv, cnfgen_main_env version argv = PCliError <-> cnfgen_main argv = PCliError.
+Proof. exact env_error_iff. Qed.
+Print Assumptions pipeline_env_error_iff.
+
+Theorem pipeline_env_total : forall version argv,
+  (exists text, cnfgen_main_env version argv = POut text) \/ cnfgen_main_env version argv = PCliError \/
+  cnfgen_main_env version argv = POutside.
+Proof. exact env_total. Qed.
+Print Assumptions pipeline_env_total.
+
+(* with the header in front (whatever the tokens on the command line contain: line breaks are shielded), the text
+   still reads back as exactly the formula *)
+Theorem pipeline_env_roundtrip : forall version argv text, cnfgen_main_env version argv = POut text ->
+  exists n F hh, pl_formula argv = FrOk n F /\ pl_header_choice version argv = Some hh /\
+                 text = print_dimacs hh None n F /\ 0 <= n /\ lits_in_range n F = true /\
+                 (printable n -> printable (len F) -> forall u, parse_dimacs u text = DOk n F).
+Proof. exact env_roundtrip. Qed.
+Print Assumptions pipeline_env_roundtrip.
+
+(* provenance: description, generator, copyright, url of the generated formula, then `transformation 1..k` for the
+   k steps that record an entry, in the order applied, then the command line -- nothing else *)
+Theorem pipeline_header_shape : forall version argv g ts h, pl_header version argv g ts = Some h ->
+  exists d, pl_fdesc g = Some d /\
+  h = plh_render (List.app (plh_fresh version d) (List.app (number_from 0 (flat_map pl_tdesc ts))
+                  [(KO "command line", String.append "cnfgen " (plh_join " " argv))])).
+Proof. exact pl_header_shape. Qed.
+Print Assumptions pipeline_header_shape.
+
+Theorem pipeline_env_fast_eq : forall version argv, cnfgen_main_env_fast version argv = cnfgen_main_env version argv.
+Proof. exact cnfgen_main_env_fast_eq. Qed.
+Print Assumptions pipeline_env_fast_eq.
+
+Example pipeline_env_nonvacuous :
+  cnfgen_main_env "0.9.1" ["php"; "2"; "1"; "-T"; "xor"; "1"; "-T"; "none"; "-T"; "flip"]%string = POut (lit "c description: Pigeonhole principle formula for 2 pigeons and 1 holes
+c generator: CNFgen (0.9.1)
+c copyright: (C) 2012-2022 Massimo Lauria <massimo.lauria@uniroma1.it>
+c url: https://massimolauria.net/cnfgen
+c transformation 1: Substitution with XOR of arity 1
+c transformation 2: All polarities have been flipped
+c command line: cnfgen php 2 1 -T xor 1 -T none -T flip
+c
+p cnf 2 3
+-1 0
+-2 0
+1 2 0
+") /\
+  cnfgen_main_env "x" ["kcolor"; "2"; "complete"; "3"]%string = POutside /\
+  (exists t, cnfgen_main ["-q"; "kcolor"; "2"; "complete"; "3"]%string = POut t) /\
+  cnfgen_main_env "x" ["-v"; "-q"; "true"]%string = PCliError.
+Proof. repeat split; try (vm_compute; reflexivity). eexists. vm_compute. reflexivity. Qed.
 
 (* ------------------------------------------------------------------ *)
 (* the hypotheses are satisfiable, the three outcomes occur            *)
